@@ -11,7 +11,7 @@ import itertools
 from isomc import refmodel as M
 
 EXACT = [{"seconds": 1}, {"hours": 1}, {"minutes": 90}, {"days": 1}, {"hours": 36}, {"weeks": 1},
-         {"days": 7}, {"days": 366}, {"seconds": 0}]
+         {"days": 7}, {"days": 366}, {"seconds": 0}, {"hours": 1, "minutes": -60}]
 NOMINAL = [{"months": 1}, {"months": 2}, {"years": 1}, {"years": 4}, {"months": 1, "days": 2},
            {"years": 1, "months": 1}, {"months": 1, "hours": 1}]
 NS = [None, 1, 2, 3, 4, 7]
@@ -23,7 +23,11 @@ def is_nominal(d):
 
 
 def is_zero(d):
-    return not any(d.values())
+    """Zero *length* (components may cancel: PT1H-60M)."""
+    if is_nominal(d):
+        return False
+    return (d.get("weeks", 0) * 604800 + d.get("days", 0) * 86400 + d.get("hours", 0) * 3600 +
+            d.get("minutes", 0) * 60 + d.get("seconds", 0)) == 0
 
 
 def anchors(kind, tier="quick"):
